@@ -356,6 +356,9 @@ class Interp:
                 else 'METADATA'
             spelling = st[4] if len(st) > 4 else None
             path = sb.p(rel)
+            if rel == '@parent':
+                # the directory the running build_file function works in
+                path = os.path.dirname(fr.path) if fr.path else sb.w
             try:
                 if self.mode == 'real':
                     ans = B.query(kind, path, cmp, spelling)
@@ -517,6 +520,7 @@ class Interp:
                 except CrashError:
                     raise
                 except Exception as e:
+                    self.note_injected(e, 'f', path, None, None, None)
                     res.append('!' + type(e).__name__)
             fr.obs.append(['bfmany', prefix, digest(res)])
         elif op == 'qx':
